@@ -192,8 +192,8 @@ def optimal_fit(prog):
         pushes = [b for b, n in mutators_of(prog, body, m.acc) if n == "Vec::push" and b in lm.blocks]
         if pushes and lm.kind != "iter":
             bt = lm
-        if lm.kind == "iter" and lm.source == m.F:
-            pre = lm
+        if lm.kind == "iter" and lm.source in (m.F, ("call", "[]::iter", (m.F,))):
+            pre = lm          # `for f in fragments` or an explicit `fragments.iter()`
     if bt is None:
         raise AnchorMissing("%s: no non-iterator loop pushing onto the returned Vec (back-trace)" % key)
     m.bt = bt
